@@ -93,6 +93,8 @@ def mut(e):
 def run(ctx):
     ctx.mc("MC_Address", core.cfg_of("MC_Address.cfg"), label="5 kinds x 2 networks x keys with abstract hashes: decodes to the right script")
     events = core.build_events(ctx, gen_inputs(ctx))
+    events += core.suite_events(ctx, ["tests/test_base_wallet.py", "tests/test_bip44.py", "tests/test_bip49.py", "tests/test_bip84.py"],
+                                ("Addr",), len(events), limit=150 if ctx.quick else 3000)
     for e in events[:2] + events[-1:]:
         ctx.sample({"call": describe(e), "res": str(e["res"])[:160]})
     rj = ctx.validate(MODULE, events, min_shard=40)
